@@ -4,7 +4,7 @@ import ast
 
 from ..program import AnalysisError, walk_local, dotted
 from ..analysis import Spec, src, const_value
-from ..rules import (GWF, EXC, mpt, need_func, stores_to, raise_class,
+from ..rules import (inside, before, GWF, EXC, mpt, need_func, stores_to, raise_class,
                      parent_map, kw, is_const, strip_wrappers, eval_atom,
                      UNKNOWN)
 from . import common
@@ -181,7 +181,7 @@ def direct_merge_shape(prog, an, rep):
     # first.dst_branch.merge(first) before the loop
     pre = [x for x in prog.calls_in(f)
            if isinstance(x.func, ast.Attribute) and x.func.attr == 'merge'
-           and x.lineno < loop.lineno]
+           and before(f, x, loop)]
     ok = len(pre) == 1 and src(pre[0].func.value) == first + '.dst_branch' \
         and [src(a) for a in pre[0].args] == [first]
     rep.evaluated()
@@ -217,9 +217,9 @@ def direct_merge_shape(prog, an, rep):
                       if s_.endswith('.dst_branch')}))
     if prev and prev != '?':
         binds = stores_to(f, prev)
-        init = [v for st, v in binds if st.lineno < loop.lineno]
+        init = [v for st, v in binds if before(f, st, loop)]
         inloop = [(st, v) for st, v in binds
-                  if loop.lineno <= st.lineno <= loop.end_lineno]
+                  if inside(loop, st)]
         rep.evaluated()
         rep.check(len(init) == 1 and init[0] is not None and
                   src(init[0]) == first, R, f.qname + ': prev starts at '
@@ -238,7 +238,7 @@ def direct_merge_shape(prog, an, rep):
                     ok, path = False, p_
             # the re-binding comes after the merge of this iteration
             for call, _ in calls:
-                ok = ok and inloop[0][0].lineno > call.lineno
+                ok = ok and before(f, call, inloop[0][0])
         rep.evaluated()
         rep.check(ok, R, f.qname + ': prev advances to the target just '
                   'merged, in every iteration', f.where(loop),
@@ -315,12 +315,10 @@ def queue_merge_shape(prog, an, rep):
     creates = [x for x in prog.calls_in(f)
                if isinstance(x.func, ast.Attribute) and
                x.func.attr == 'create' and src(x.func.value) == qint]
-    pre_b = [(st, v) for st, v in binds if st.lineno < loop.lineno]
-    in_b = [(st, v) for st, v in binds
-            if loop.lineno <= st.lineno <= loop.end_lineno]
-    pre_c = [x for x in creates if x.lineno < loop.lineno]
-    in_c = [x for x in creates
-            if loop.lineno <= x.lineno <= loop.end_lineno]
+    pre_b = [(st, v) for st, v in binds if before(f, st, loop)]
+    in_b = [(st, v) for st, v in binds if inside(loop, st)]
+    pre_c = [x for x in creates if before(f, x, loop)]
+    in_c = [x for x in creates if inside(loop, x)]
     giq = Spec.func(Q + '.get_queue_integration_branch')
     first_q = None
     for st in walk_local(f.node, include_root=False):
@@ -340,8 +338,8 @@ def queue_merge_shape(prog, an, rep):
     ok = len(in_b) == 1 and isinstance(in_b[0][1], ast.Call) and \
         an.call_matches(f, in_b[0][1], giq) and len(in_c) == 1 and \
         in_c[0].args and src(in_c[0].args[0]) == qv and \
-        all(in_b[0][0].lineno > call.lineno for call, _ in calls) and \
-        in_c[0].lineno > in_b[0][0].lineno
+        all(before(f, call, in_b[0][0]) for call, _ in calls) and \
+        before(f, in_b[0][0], in_c[0])
     path = None
     if ok:
         head = c.stmt_node[id(loop)]
@@ -362,7 +360,7 @@ def queue_merge_shape(prog, an, rep):
     # first queue receives first integration branch
     first_merge = [x for x in prog.calls_in(f)
                    if isinstance(x.func, ast.Attribute) and
-                   x.func.attr == 'merge' and x.lineno < loop.lineno]
+                   x.func.attr == 'merge' and before(f, x, loop)]
     first_w = None
     for st in walk_local(f.node, include_root=False):
         if isinstance(st, ast.Assign) and \
@@ -372,7 +370,7 @@ def queue_merge_shape(prog, an, rep):
     ok = len(first_merge) == 1 and \
         src(first_merge[0].func.value) == first_q and \
         [src(a) for a in first_merge[0].args] == [first_w] and \
-        pre_c and first_merge[0].lineno < pre_c[0].lineno
+        pre_c and before(f, first_merge[0], pre_c[0])
     rep.check(bool(ok), R, f.qname + ': first queue <- first integration '
               'branch, before the queue-integration branch is cut',
               f.where(), 'first queue merge is %s' % [src(x)
@@ -491,6 +489,10 @@ def _transfer(an, f, st, facts, nulls, summaries):
             isinstance(st.targets[0], ast.Name):
         v = st.targets[0].id
         nulls = {x for x in nulls if x[0] != v}
+        # re-binding a branch variable: v now names what the value names
+        facts = {(bb, s_) for (bb, s_) in facts if bb != v}
+        if isinstance(st.value, ast.Name):
+            facts |= {(v, s_) for (bb, s_) in facts if bb == st.value.id}
         if isinstance(st.value, ast.Constant) and st.value.value is None:
             nulls.add((v, True))
         elif isinstance(st.value, (ast.Name, ast.Call, ast.Constant)):
@@ -671,7 +673,7 @@ def cascade_validate(prog, an, rep):
         f, lambda e: isinstance(e, ast.Call) and
         isinstance(e.func, ast.Attribute) and
         e.func.attr == 'includes_commit')]
-    shapes = sorted((src(t.ast.func.value), src(t.ast.args[0]))
+    shapes = sorted((src(t.matched.func.value), src(t.matched.args[0]))
                     for t in tests)
     want = sorted([('dev_branch', 'stb_branch'),
                    ('dev_branch', 'previous_dev_branch')])
@@ -686,7 +688,7 @@ def cascade_validate(prog, an, rep):
                       (first[1] or '').endswith(
                           '.DevBranchesNotSelfContained'), R,
                       f.qname + ': missing inclusion (%s in %s) raises' % (
-                          src(t.ast.args[0]), src(t.ast.func.value)),
+                          src(t.matched.args[0]), src(t.matched.func.value)),
                       f.where(t), 'a missing inclusion leads to %s' %
                       (first,))
     # previous_dev_branch re-bound on every iteration that does not continue
@@ -697,7 +699,7 @@ def cascade_validate(prog, an, rep):
     loop = loops[0]
     head = c.stmt_node[id(loop)]
     binds = [st for st, v in stores_to(f, 'previous_dev_branch')
-             if loop.lineno <= st.lineno <= loop.end_lineno and
+             if inside(loop, st) and
              v is not None and src(v) == 'dev_branch']
     conts = [n.id for n in c.nodes.values() if n.kind == 'continue']
     tb = [s for s in c.succ[head] if c.nodes[s].kind == 'true']
